@@ -60,6 +60,11 @@ func c06run(c *vlib.Case, res *vlib.Result) {
 		nH = 13 + rng.IntN(28)
 	}
 	dirs := []string{"", "", "a/", "b/", "a/sub/", "z/", "00-first/"}
+	if c.Index%3 == 1 {
+		// directory names that are prefixes of their siblings' names with a next character below '/':
+		// a directory walk visits a/... before a-x/... and a.d/..., path order is the other way round
+		dirs = []string{"a/", "a/", "a-x/", "a.d/", "a/sub/", "a/sub.d/", "a+b/"}
+	}
 	crontabs := []string{"20 1 1 1 *", "21 1 1 1 *", "22 1 1 1 *"}
 	orders := []float64{-5, 0, 1, 1, 5, 5, 5, 10, 100}
 	var hooks []*c06hook
